@@ -196,6 +196,8 @@ impl DTree {
         }
         // `subtrees` are independent, so compose them
         let mut res = DTree::balanced(&subtrees);
+        // the nodes composing independent subtrees need their variable sets too
+        res.init_vars();
         res.gen_cutset(&VarSet::new());
         res
     }
